@@ -51,7 +51,7 @@ let () =
           (try
             let (v, _) = parse_val rest in
             let f = List.map (fun c -> n_of_int (Char.code c)) (List.init (String.length fname) (String.get fname)) in
-            print_val buf (M.dispatch f v)
+            print_val buf (M.dispatch_all f v)
           with
           | Stack_overflow -> Buffer.clear buf; Buffer.add_string buf "( s101,114,114 s115,116,97,99,107 )"
           | Failure m -> Buffer.clear buf; Buffer.add_string buf ("!driver-failure " ^ m));
